@@ -250,14 +250,19 @@ def run_config(c, cfg):
         bad = invariants(sp, cfg, rows, consumed, cfg['ma_only'])
         if not bad and not (sim == 'delay' and has_delay):
             bad = absorbed(sp, cfg, rows, V)
-        if not bad and sim == 'delay' and rows and all(v == 0 for slot in got.get('queue', []) for v in slot):
-            # nothing is pending any more: every conservation law of the complete (immediate + delayed) network holds again
+        if not bad and sim == 'delay' and rows and got.get('queue') is not None:
+            # accounting with what is still queued: for every conservation law w of the complete (immediate + delayed) network,
+            # w.(last row) + w.(delayed parts of the pending deliveries) = w.(initial state); with an empty queue this is the law itself
             S_, Sd_ = crn.stoich(sp)
+            nr_ = len(sp['reactions'])
             x0_ = [float(sp['x0'][s_]) for s_ in sp['species']]
-            for w in nullspace_int([[S_[i][j] + Sd_[i][j] for j in range(len(sp['reactions']))] for i in range(len(x0_))]):
-                a0, a1 = sum(wi * v for wi, v in zip(w, x0_)), sum(wi * v for wi, v in zip(w, rows[-1]))
+            pend_ = [sum(slot[j] for slot in got['queue']) for j in range(nr_)]
+            for w in nullspace_int([[S_[i][j] + Sd_[i][j] for j in range(nr_)] for i in range(len(x0_))]):
+                a0 = sum(wi * v for wi, v in zip(w, x0_))
+                a1 = sum(wi * v for wi, v in zip(w, rows[-1])) + sum(pend_[j] * sum(w[i] * Sd_[i][j] for i in range(len(x0_))) for j in range(nr_))
                 if a0 != a1:
-                    bad = ('conservation-after-drain', 'the delay queue is empty but the conserved quantity %s went from %s to %s (last row %s)' % (w, a0, a1, rows[-1]))
+                    bad = ('conservation-after-drain', 'the conserved quantity %s was %s at the start and is %s at the end, pending deliveries %s included (last row %s)' % (
+                        w, a0, a1, pend_, rows[-1]))
                     break
         if bad:
             key = 'C06/%s/%s/%s/%s' % (sim, 'safe' if cfg['safe'] else 'plain', sp['name'], bad[0])
@@ -313,7 +318,7 @@ def run(ctx):
                 'reference-led choice tree to cost 2 plus every raw script over {0.02,0.3,0.6,0.97}^depth. The oracle reads only the '
                 'implementation\'s rows: integrality, each row change is a non-negative integer combination of stoichiometric columns '
                 '(bounded integer search), every integer conservation law (left null space by fractions) is constant, no negative '
-                'count for mass action / safe mode, zero-propensity rows are absorbing; for the delay simulator, once the returned queue is empty every conservation law of the complete network holds for the last row. states = distinct (state, grid index) '
+                'count for mass action / safe mode, zero-propensity rows are absorbing; for the delay simulator, every conservation law of the complete network holds for the last row together with the delayed parts of what the returned queue still holds. states = distinct (state, grid index) '
                 'visited; every (network, simulator, interface) configuration is counted once as non-trivial.')
     ctx.assumptions = ['stoichiometry by counting (vf/ref/crn.py); rows are compared with themselves, not with a reference trajectory']
     pmap(run_config, cfgs, ctx, nshards=len(cfgs))
